@@ -2,7 +2,7 @@
    theorem can carry: progress bookkeeping never aborts an analysis, notifications carry a fraction in [0,1]).
    Only statements; proofs are [exact <lemma>] or [lia]. *)
 From Coq Require Import ZArith QArith Bool List Lia.
-From PV Require Import Base.Num Base.Outcome An.Progress An.Progress_facts gen.Steps_gen.
+From PV Require Import Base.Num Base.Outcome An.Progress An.Progress_facts An.Progress_blocks gen.Steps_gen gen.ProgressBlocks_gen.
 Import ListNotations.
 
 (* every notification carries a fraction between 0 and 1, in every reachable state and for every operation *)
@@ -41,6 +41,25 @@ Theorem C18_fit_steps_ok :
 Proof. intros. unfold fit_increments, fit_total. lia. Qed.
 Print Assumptions C18_fit_steps_ok.
 
-(* NOT PROVED (kept visible): kk_steps_ok, trnnls_steps_ok, lm_steps_ok, mrq_steps_ok, bht_steps_ok — the number of
-   increments of those entry points depends on data (break conditions, nested loops) and is only observed: the harness wraps
+(* Every `with Progress(..., total=<literal>)` block of the analysis code (the DRT methods and the peak analysis; the table
+   [const_blocks] is regenerated from the source on every run with the largest number of increments on ANY path through each block,
+   tools/tr_progress.py) runs to the end on every path: whatever interleaving of at most that many unit increments and plain
+   set_message calls the body performs, no increment and not the one of __exit__ is refused, and nothing divides by zero. *)
+Theorem C18_constant_blocks_run_to_the_end :
+  forall name T m, In (name, T, m) const_blocks ->
+  forall ops, forallb block_op ops = true -> (incs ops <= m)%Z ->
+  forallb is_ok (prun (mkPr 0 T None) (PEnter :: ops ++ [PExit])) = true /\
+  length (prun (mkPr 0 T None) (PEnter :: ops ++ [PExit])) = S (S (length ops)).
+Proof.
+  assert (Htab : forallb (fun b : list N * Z * Z => let '(_, T, m) := b in (0 <? T)%Z && (m + 1 <=? T)%Z) const_blocks = true)
+    by (vm_compute; reflexivity).
+  intros name T m Hin ops Hops Hm. rewrite forallb_forall in Htab. specialize (Htab _ Hin). cbn in Htab.
+  apply andb_prop in Htab as [H1 H2]. apply Z.ltb_lt in H1. apply Z.leb_le in H2.
+  apply block_runs_to_the_end; auto. lia.
+Qed.
+Print Assumptions C18_constant_blocks_run_to_the_end.
+
+(* NOT PROVED (kept visible): the blocks whose total is an expression other than perform_zhit and fit_circuit (evaluate_log_F_ext,
+   _test_lambda_values, _perform_attempts, calculate_drt_tr_rbf) — their number of increments depends on data (break conditions,
+   loops over pools) and is only observed: the harness wraps
    Progress and reports any increment beyond the total as a violation with the option tuple as replay. *)
